@@ -68,7 +68,9 @@ ACTION_FILE = preserve_context.__code__.co_filename
 G = Logger._destinations
 _SAVED_G = dict(G.__dict__)
 KNOWN_SIGNATURES = []          # signatures of genuine violations on the unchanged tree (none)
-WAIT = 25                      # safety timeout of every blocking wait (never reached when things work)
+WAIT = 15                      # race family: a caller that neither parks nor finishes within this is reported as a hang
+PROG_WAIT = 60                 # hand-off programs: all site threads / a child interpreter must finish within this (else: hang)
+BATON_WAIT = 240               # a site thread waiting for its turn (never reached; the two above detect hangs)
 
 
 def err(*a):
@@ -182,7 +184,7 @@ class RT(object):
         self.runnable.append(tok)
 
         def body():
-            if not ev.wait(WAIT):
+            if not ev.wait(BATON_WAIT):
                 return
             self.tls.tok = tok
             try:
@@ -213,7 +215,7 @@ class RT(object):
             ev = self.events[me]
             ev.clear()
             self.events[nxt].set()
-            if not ev.wait(WAIT):
+            if not ev.wait(BATON_WAIT):
                 raise RuntimeError("scheduler timeout")
 
     def _finish(self, tok):
@@ -226,7 +228,7 @@ class RT(object):
     def run_all(self, first):
         self.spawn(first)
         self.events[0].set()
-        if not self.all_done.wait(WAIT * 2):
+        if not self.all_done.wait(PROG_WAIT):
             self.problem("hang", "site threads did not finish: a call blocked")
         while self.deferred:
             self.deferred.pop(0).run_process()
@@ -473,7 +475,7 @@ class RemoteJob(object):
         rt.nproc += 1
         try:
             p = subprocess.run([sys.executable, os.path.abspath(__file__), "--child"], input=json.dumps(spec).encode(),
-                               stdout=subprocess.PIPE, stderr=subprocess.PIPE, timeout=WAIT, env=os.environ)
+                               stdout=subprocess.PIPE, stderr=subprocess.PIPE, timeout=PROG_WAIT, env=os.environ)
             if p.stderr:
                 err(p.stderr.decode(errors="replace")[-2000:])
             res = json.loads(p.stdout.decode().strip().splitlines()[-1])
@@ -765,7 +767,7 @@ def run_race(sc, count_only=False):
             if not done[i].wait(WAIT):
                 probs.append(["hang", "caller %d did not finish after release" % i])
         for t in threads:
-            t.join(WAIT)
+            t.join(0.01 if any(c == "hang" for c, _ in probs) else WAIT)
         # --- oracle ---
         if len(runs) != 1:
             probs.append(["once", "wrapped function ran %d times (callers %r) for %d concurrent calls" % (len(runs), runs, n)])
@@ -784,7 +786,7 @@ def run_race(sc, count_only=False):
         if len(winners) != 1:
             probs.append(["toomany", "%d of %d concurrent calls went through (outcomes %r); exactly one must, every other must raise TooManyCalls" % (
                 len(winners), n, [oc and oc[0] for oc in outcome])])
-        if winners and runs and runs[:1] != winners[:1]:
+        if len(winners) == 1 and len(runs) == 1 and runs != winners:
             probs.append(["passthrough", "function ran for caller %r but caller %r got its result" % (runs, winners)])
         want = [((1,), "start"), ((pre + post + 3,), "end")] + [((j + 2,), "msg") for j in range(pre)] + [((pre + 3 + j,), "msg") for j in range(post)]
         want += [(tuple(pos) + (1,), "start"), (tuple(pos) + (2,), "msg"), (tuple(pos) + (3,), "end")]
